@@ -64,6 +64,11 @@ def programs(tier, seed=0):
     multi += [dict(kind="multi", parts=[rl("assignment", "C1 = 2*A", 2.5), rl("assignment", "C1 = A + kq", 5.0), rl("assignment", "B_x = C1 + 1", "repeated")]),
               dict(kind="multi", parts=[rl("assignment", "kq = A + 1", "repeated"), rl("additive", "C1 = A + B_x", "repeated"), rl("assignment", "kq = 2*kq", "dt"),
                                         rl("assignment", "C1 = C1 + kq", "dt")])]
+    short = {"A": "u", "B_x": "me", "C1": "o"}
+    multi += [dict(kind="rx", ptype="massaction", reactants=["A", "B_x"], products=["C1"], named=True, names=short),
+              dict(kind="rx", ptype="hillpositive", reactants=["A"], products=["C1", "C1"], named=True, names={"A": "e", "B_x": "vol", "C1": "l"}),
+              dict(kind="rx", ptype="general", reactants=["A"], products=["C1"], named=True, rate="kq*A/(1 + B_x) + C1", names=short),
+              dict(kind="rule", rtype="assignment", eq="B_x = kq*A + 1", freq="repeated", names={"A": "v", "B_x": "m", "C1": "um"})]
     if tier == "quick":
         keep = [p for i, p in enumerate(out) if p["kind"] == "rule" or p.get("delay") or p["ptype"] != "massaction" or i % 2 == 0]
         return keep + multi
@@ -72,6 +77,25 @@ def programs(tier, seed=0):
 
 def build_args(p):
     """several reactions / rules in one model: the parts' constructor arguments merged in order (shared parameters declared once)"""
+    if p.get("names"):
+        # the same program over other species names (short ones: substrings of longer identifiers and of the reserved words)
+        import re as _re
+        q = dict(p)
+        names = q.pop("names")
+        a = build_args(q)
+
+        def ren(x):
+            if isinstance(x, str):
+                return _re.sub(r"\b(%s)\b" % "|".join(_re.escape(k) for k in names), lambda m_: names[m_.group(1)], x)
+            if isinstance(x, list):
+                return [ren(y) for y in x]
+            if isinstance(x, tuple):
+                return tuple(ren(y) for y in x)
+            if isinstance(x, dict):
+                return {ren(k): ren(v) for k, v in x.items()}
+            return x
+        return dict(species=ren(a["species"]), parameters=a["parameters"], reactions=ren(a["reactions"]), rules=ren(a["rules"]),
+                    initial_condition_dict=ren(a["initial_condition_dict"]))
     if p["kind"] != "multi":
         return _build_one(p)
     out = None
